@@ -14,7 +14,13 @@ from vlib.core import Harness, SPEC_SRC
 
 
 # per-validator bounds where the default bound does not finish under the per-harness cap (measured on this machine)
-BOUNDS = {}
+BOUNDS = {
+    # validate_regex_15 collects into a Vec (heap): CBMC runs out of memory at 4 symbolic bytes (measured) -> 3 bytes, long strings not covered
+    ('quick', 'validate_regex_15'): dict(full=3, alpha=0),
+    ('thorough', 'validate_regex_15'): dict(full=3, alpha=0),
+    ('quick', 'validate_regex_17'): dict(alpha=12),
+    ('quick', 'validate_regex_24'): dict(alpha=14),
+}
 
 
 def table_entries():
